@@ -59,6 +59,8 @@ func c03Errors(full bool) []c03Err {
 	for i, m := range msgs[1:] {
 		out = append(out, c03Err{fmt.Sprintf("plain/m%d", i), errors.New(m)})
 	}
+	// errors a handler typically passes on from its own Recv
+	out = append(out, c03Err{"io-eof", io.EOF}, c03Err{"wrapped-io-eof", fmt.Errorf("reading request: %w", io.EOF)}, c03Err{"unexpected-eof", io.ErrUnexpectedEOF})
 	out = append(out, c03Err{"ctx-canceled", context.Canceled}, c03Err{"ctx-deadline", context.DeadlineExceeded},
 		c03Err{"ok-status-error", okStatusErr{}}, c03Err{"success", nil})
 	return out
